@@ -59,7 +59,10 @@ def scenarios(tier):
     # every pair of entries of the option universe of vf.pairwise (parameter plumbing between unrelated options)
     pw = [dict(pw=k, label=pairwise.get(k)["label"], layout=pairwise.get(k)["layout"], keys=[], final=None, ts=False, tl=False, alt=None,
                pf=None, sides="both") for k in range(pairwise.count())]
-    return S + pe + pw
+    # --max-n as a fraction, exactly at the threshold: every (length <= 100, N count) whose quotient is a decimal with <= 3 places
+    bd = [dict(kind="maxn-boundary", part=k, parts=4, layout="single", keys=["max_n"], final=None, ts=False, tl=False, alt=None, pf=None,
+               sides="both") for k in range(4)]
+    return S + pe + pw + bd
 
 
 def shards(tier):
@@ -105,6 +108,9 @@ def run_shard(d):
     res = dict(evals=0, runs=0, nontrivial=0, disagreeing=0, viol=common.Viols(cap=3), samples=[], cats=set())
     fwd = (r1, r2)
     for i in d["idx"]:
+        if S[i].get("kind") == "maxn-boundary":
+            _maxn_boundary(S[i], wd, res)
+            continue
         sc = dict(S[i], reversed_corpus=(i % 2 == 1))
         # every other scenario reads the corpus back to front (the reference judges each read on its own)
         r1, r2 = (fwd[0][::-1], fwd[1][::-1]) if sc["reversed_corpus"] else fwd
@@ -125,6 +131,66 @@ def run_shard(d):
     res["cats"] = sorted(res["cats"])
     clih.rmtree(wd)
     return res
+
+
+def _maxn_boundary(sc, wd, res):
+    """'more N's than --max-n, a value below 1 being a fraction of the read length': at the threshold exactly, one N below and
+    one N above it, for every decimal threshold with at most three places that some (length, count) pair meets exactly."""
+    from fractions import Fraction
+
+    from cutadapt.info import ModificationInfo
+    from cutadapt.predicates import TooManyN
+    from dnaio import SequenceRecord
+
+    V = res["viol"]
+    cases = []
+    for L in range(1, 101):
+        for n in range(1, L):
+            f = Fraction(n, L)
+            if (f * 1000).denominator == 1:
+                cases.append((L, n, str(float(f))))
+    cases = cases[sc["part"]:: sc["parts"]]
+    cli_recs, cli_expect = [], {}
+    by_cut = {}
+    for L, n, cut in cases:
+        by_cut.setdefault(cut, []).append((L, n))
+        pred = TooManyN(float(cut))
+        for k in (n - 1, n, n + 1):
+            if k > L:
+                continue
+            seq = "N" * k + "A" * (L - k)
+            rec = SequenceRecord("r", seq, "I" * L)
+            got = bool(pred.test(rec, ModificationInfo(rec)))
+            exp = Fraction(k, L) > Fraction(cut)
+            res["evals"] += 1
+            res["nontrivial"] += 1 if k == n else 0
+            if got != exp:
+                V.append(("se:maxn-boundary", f"--max-n {cut}: a read of length {L} with {k} N is {'discarded' if got else 'kept'}, the "
+                          f"stated criterion ({k}/{L} > {cut}) says {'discard' if exp else 'keep'}", dict(cutoff=cut, length=L, n_count=k)))
+    # command-line seam for the thresholds that occur most often
+    common_cuts = sorted(by_cut, key=lambda c: -len(by_cut[c]))[:6]
+    for cut in common_cuts:
+        recs = []
+        for j, (L, n) in enumerate(by_cut[cut]):
+            for k in (n - 1, n, n + 1):
+                if k <= L:
+                    recs.append((f"b{j}_{L}_{k}", "N" * k + "A" * (L - k), "I" * L))
+        inp, out = os.path.join(wd, "bd.fq"), os.path.join(wd, "bd.out.fq")
+        clih.write_text(inp, clih.fastq_text(recs))
+        r = clih.run_cli(["--max-n", cut, "-o", out, inp])
+        res["runs"] += 1
+        if r.exit != 0:
+            V.append(("se:cli", f"cutadapt failed: {r.exit} {r.exc} {r.errors()[:1]}", dict(cutoff=cut)))
+            continue
+        kept = {x[0] for x in clih.read_records(out)[1]}
+        for nm, seq, _ in recs:
+            L, k = len(seq), seq.count("N")
+            res["evals"] += 1
+            exp_keep = not (Fraction(k, L) > Fraction(cut))
+            if (nm in kept) != exp_keep:
+                V.append(("se:maxn-boundary", f"cutadapt --max-n {cut}: a read of length {L} with {k} N is {'kept' if nm in kept else 'discarded'}",
+                          dict(cutoff=cut, length=L, n_count=k, seam="cli")))
+                break
 
 
 def run(tier):
@@ -162,6 +228,9 @@ def replay(path):
         v = json.load(f)
     print(json.dumps(v, indent=1)[:3000])
     c = v["case"]
+    if "scenario" not in c:
+        import sys
+        return common.replay_by_rerun(sys.modules[__name__], PROP, path)
     sc = c["scenario"]
     o, outs = opts_of(sc)
     r1 = routing.corpus()
